@@ -583,6 +583,12 @@ func runC02(s *Sim) {
 				pts := data.Points{{Type: typ, Key: key, Value: v, Text: txt, Time: stamp(), Origin: a.Name}}
 				if two {
 					pts = append(pts, data.Point{Type: "extra", Key: key, Value: v + 0.5, Time: stamp(), Origin: a.Name})
+					if int(v)%5 == 4 {
+						// an entry written and removed in one go (point-level tombstone) under an identity nobody has held before:
+						// it has to reach the other side like any other point (decided by the operation count, not by a draw, so
+						// that the tapes of the directed replays keep their meaning)
+						pts[1].Type, pts[1].Tombstone = fmt.Sprintf("gone%d", int(v)), 1
+					}
 				}
 				_ = client.SendNodePoints(a.Nc, n, pts, true)
 			})
